@@ -146,7 +146,15 @@ func SegDump(f *ach.File, in *Interner) string {
 			fmt.Fprintf(&b, " %d %d %d %d %d", e.TransactionCode, e.Amount, TagOf(e.DFIAccountNumber), traceSeq(e.TraceNumber), CatCode(e.Category))
 		}
 	}
-	fmt.Fprintf(&b, " R %d", len(f.ReturnEntries))
+	b.WriteString(" " + ListsDump(f))
+	return b.String()
+}
+
+// ListsDump: the positions in f.Batches of the batches in f.ReturnEntries and
+// f.NotificationOfChange (pointer identity; -1 for a batch that is not in f.Batches).
+func ListsDump(f *ach.File) string {
+	var b strings.Builder
+	fmt.Fprintf(&b, "R %d", len(f.ReturnEntries))
 	for _, x := range f.ReturnEntries {
 		fmt.Fprintf(&b, " %d", position(f.Batches, x))
 	}
